@@ -350,7 +350,13 @@ fn parse_scenario(v: &Value) -> Scenario {
 fn quiet_after(scn: &Scenario) -> Duration {
     // longer than any silence the script or the policy can legitimately produce
     let longest = scn.script.iter().map(|o| o.lat + o.ed + o.body.iter().map(|e| e.d).sum::<u64>()).max().unwrap_or(0);
-    Duration::from_millis(10 * (scn.pol.2.max(scn.pol.0) + longest + 1000))
+    // ... including a whole run of failed re-initialisations, during which the stream delivers nothing
+    let (mut fail_run, mut fail_longest) = (0u64, 0u64);
+    for o in &scn.script {
+        fail_run = if o.ok { 0 } else { fail_run + o.lat + scn.pol.2.max(scn.pol.0) };
+        fail_longest = fail_longest.max(fail_run);
+    }
+    Duration::from_millis(10 * (scn.pol.2.max(scn.pol.0) + longest + 1000) + 2 * fail_longest)
 }
 
 fn event_cap(scn: &Scenario) -> usize {
@@ -556,8 +562,16 @@ fn random_scenario(rng: &mut rand::rngs::StdRng) -> Value {
     let mut script = vec![];
     let mut v = 0;
     let mut run_fail = 0;
+    // now and then one VERY long run of failed re-initialisations (longer than the 58 doublings that take the
+    // default policy's 125 ms beyond 64 bits): the waits stay at the maximum and the next good connection is delivered
+    let long_run_at = if rng.random_range(0..8) == 0 { rng.random_range(1..len) } else { usize::MAX };
     while script.len() < len {
-        // the closed form b0*mult^(n-1) must stay inside TLC's 32-bit integers: failure runs <= 10
+        if script.len() == long_run_at {
+            for _ in 0..rng.random_range(60..=80) {
+                script.push(json!({"ok": false, "lat": 0, "ed": 0, "body": []}));
+            }
+            run_fail = 10;
+        }
         let fail = if script.is_empty() { rng.random_bool(0.04) } else { run_fail < 10 && rng.random_bool(0.55) };
         let lat = [0, 0, 0, 5, 13][rng.random_range(0..5)];
         if fail {
